@@ -318,12 +318,54 @@ def list_dotted_names(fn: Callable) -> Set[str]:
 
         _dotted_names_cache[fn] = result
         return result
+    except SyntaxError:
+        # The source lines found for the function are not a piece of Python on their own: a
+        # lambda on a continuation line of a larger expression, for instance. Read the names
+        # from the compiled code instead.
+        result = _dotted_names_from_bytecode(inspect.unwrap(fn))
+        _dotted_names_cache[fn] = result
+        return result
     except (OSError, TypeError) as e:
         # Will be thrown if not a module, class, method, function, traceback, frame, or code object
         # or if the source could not be loaded
         log.debug("Skipping {} in code hash because {}".format(fn.__qualname__, e))
         _dotted_names_cache[fn] = set()
         return set()
+
+
+def _dotted_names_from_bytecode(fn: Callable) -> Set[str]:
+    """
+    The global (and free) names that the code of a function, and of the scopes nested in it,
+    looks up, each followed by the attributes read from it right away: `a`, `a.b`, `a.b.c`.
+
+    """
+    result = set()  # type: Set[str]
+    if not hasattr(fn, "__code__"):
+        return result
+    code_objects = [fn.__code__]
+    result.update(fn.__code__.co_freevars)
+    while code_objects:
+        code_obj = code_objects.pop()
+        dotted = None  # type: Optional[str]
+        for instruction in dis.get_instructions(code_obj):
+            if instruction.opname in ("LOAD_GLOBAL", "LOAD_NAME"):
+                dotted = instruction.argval
+                result.add(dotted)
+            elif instruction.opname in ("LOAD_ATTR", "LOAD_METHOD") and dotted:
+                dotted = dotted + "." + instruction.argval
+                result.add(dotted)
+            elif instruction.opname == "LOAD_DEREF" and code_obj is fn.__code__:
+                dotted = (
+                    instruction.argval
+                    if instruction.argval in code_obj.co_freevars
+                    else None
+                )
+            elif instruction.opname not in ("CACHE", "PUSH_NULL", "EXTENDED_ARG"):
+                dotted = None
+        code_objects.extend(
+            const for const in code_obj.co_consts if isinstance(const, CodeType)
+        )
+    return result
 
 
 class _ScopeOfClosure:
